@@ -20,6 +20,24 @@ CHECKS = {
              "half-open AET rule, even crossings, last label wins, nearest-centre rounding. The model is tied to the code by "
              "comparing masks cell by cell on exhaustive lattice families and seeded random polygons.",
         ref="5 C14", technique="Coq proof over hand-written executable model + vm_compute correspondence with the implementation"),
+    "C01": dict(
+        text="Theorems (every pipeline length, every frame pair, any leaf denotation) about Gallina code REGENERATED on every run "
+             "from gwcs/wcs.py by the fail-closed py2coq translator: forward_transform is the chain of step transforms; get_transform "
+             "downstream = chain of the slice, upstream = inverses reversed, self = None, unknown frame = CoordinateFrameError in either "
+             "position, lookup by object = by name; inverse expressions invert; fix_inputs (hand model) evaluates the original at the "
+             "filled point. The regenerated code is also run inside Coq against the implementation on all frame pairs of generated pipelines.",
+        ref="5 C01", technique="Coq proof over model regenerated from source by translator (py2coq) + vm_compute correspondence"),
+    "C02": dict(
+        text="Theorems over the regenerated forward_transform and a hand model of backward_transform: backward evaluates the step inverses "
+             "in reverse order, both round trips are the identity whenever leaf inverses are inverses (hypothesis on astropy leaves), "
+             "backward.inverse = forward, user inverses honoured. PARTIAL: floating-point accuracy of astropy projections is sampled (tested).",
+        ref="5 C02", technique="Coq proof over translated + hand model, correspondence incl. in-place edits; numeric family tested"),
+    "C07": dict(
+        text="Theorems over set_transform / insert_transform / insert_frame REGENERATED from source into a state-carrying monad, and a hand "
+             "model of the bounding_box setter: accepted edits produce exactly the edited step list and frame registrations; every rejected "
+             "edit returns the entry state (all raises precede all writes); box kept by edits beyond the first step; names preserved. "
+             "Op sequences (valid+invalid) are replayed on implementation and regenerated code, compared after every op.",
+        ref="5 C07", technique="Coq proof over model regenerated from source by translator + op-sequence correspondence"),
 }
 
 NOT_YET = "check not built yet in this session (work in progress; see DESIGN.md section 10 build order)"
